@@ -117,6 +117,28 @@ func coqAnns(im *Img) string {
 	return "[" + strings.Join(q, ";") + "]"
 }
 
+// coqRules: the list constraints of the source API's properties (model/PipelineList.v rules_table).
+func coqRules(im *Img) string {
+	q := make([]string, len(im.Rules))
+	for i, r := range im.Rules {
+		q[i] = fmt.Sprintf("(%s, %s, {| lr_filter := %s; lr_sort := %s; lr_search := %s; lr_defaults := %s; lr_prefix := %s; lr_options := %s |})",
+			coqKey(r.Pkg, r.Name), coqStr(r.JSON), vh.BoolTerm(r.Filter), vh.BoolTerm(r.Sort), vh.BoolTerm(r.Search),
+			coqStrs(r.Defaults), coqStr(r.Prefix), coqStrs(r.Options))
+	}
+	return "[" + strings.Join(q, ";\n    ") + "]"
+}
+
+// coqListObs: the list request of every client method that has one: filterable, sortable, searchable names.
+func coqListObs(ms []MethodObs) string {
+	var q []string
+	for _, m := range ms {
+		if m.HasList {
+			q = append(q, fmt.Sprintf("(%s, %s, (%s, (%s, %s)))", coqStr(m.Service), coqStr(m.Name), coqStrs(m.Filter), coqStrs(m.Sort), coqStrs(m.Search)))
+		}
+	}
+	return "[" + strings.Join(q, ";\n    ") + "]"
+}
+
 func coqEntObs(es []EntObs) string {
 	q := make([]string, len(es))
 	for i, e := range es {
